@@ -176,6 +176,11 @@ func cmdCheck(args []string) {
 			usedTrusted[fn.String()] = true
 			continue
 		}
+		for _, en := range ct.Ensures {
+			if en.Assumed {
+				usedTrusted[fn.String()+" [assumed clause: "+en.Text+"]"] = true
+			}
+		}
 		rep := e.verifyFunction(fn, ct)
 		var mine []*Obl
 		for _, o := range rep.Obls {
